@@ -76,7 +76,8 @@ pub fn generator(rng: &mut Rng, min_rating: f64) -> Generator {
     }
     let n = rng.usize(2, 8);
     let (frac, eta) = eta_map_monotone(rng, n, 0.5, 1.0);
-    let rating = min_rating * rng.range(1.0, 1.6);
+    // the generator may be the binding component (rated below the engine) or oversized
+    let rating = min_rating * if rng.chance(0.35) { rng.range(0.5, 1.0) } else { rng.range(1.0, 1.6) };
     Generator::new(frac, eta, rating, None).expect("generator map accepted")
 }
 
